@@ -6,7 +6,7 @@ import numpy as np
 from xdsl.context import Context
 from xdsl.dialects import arith, builtin, func, linalg, memref
 from xdsl.dialects.memref import MemorySpaceCastOp, SubviewOp
-from xdsl.ir import Attribute, Operation, OpResult
+from xdsl.ir import Attribute, Operation, OpResult, SSAValue
 from xdsl.irdl import Operand
 from xdsl.parser import BytesAttr, DenseIntOrFPElementsAttr, MemRefType
 from xdsl.passes import ModulePass
@@ -327,8 +327,18 @@ class ApplyLayoutCastMemrefAlloc(RewritePattern):
             return
         if not isinstance(alloc_op := source.op, memref.AllocOp):
             return
-        # check if it is used in a terminator operation
-        if any(use.operation.has_trait(IsTerminator) for use in alloc_op.memref.uses):
+
+        # check if it is used in a terminator operation, directly or through other casts
+        # (a returned buffer has to keep the layout of the function type)
+        def reaches_terminator(value: SSAValue) -> bool:
+            for use in value.uses:
+                if use.operation.has_trait(IsTerminator):
+                    return True
+                if isinstance(use.operation, LayoutCast | MemorySpaceCastOp) and reaches_terminator(use.operation.results[0]):
+                    return True
+            return False
+
+        if reaches_terminator(alloc_op.memref):
             return
         # alloc op may only be used by cast ops
         if not all(isinstance(use.operation, LayoutCast | MemorySpaceCastOp) for use in alloc_op.memref.uses):
